@@ -15,9 +15,8 @@ from .ids import Inst, write_inputs
 SCENARIOS = [
     ("empty", [C("store", "p1", "a", "none"), C("store", "p2", "a", "none"),
                C("store", "p3", "a", "none"), C("store", "p1", "b", "none")]),
-    # (no store of a content whose last reference is being deleted: that is known finding K1)
-    ("shared", [C("delete", "p1"), C("delete", "p2"), C("store", "p3", "b", "none"),
-                C("tag", "p3", "a")]),
+    ("shared", [C("delete", "p1"), C("delete", "p2"), C("store", "p3", "a", "none"),
+                C("tag", "p3", "b")]),
     ("p1a", [C("tag", "p2", "a"), C("tag", "p3", "a"), C("delete", "p1"),
              C("store", "p1", "b", "none")]),
     ("unref", [C("tag", "p1", "a"), C("tag", "p1", "b"), C("store", "p2", "b", "none"),
